@@ -44,3 +44,12 @@ SPEC = dict(
         technique="certified closure + ranking certificate per configuration on the two-endpoint interleaving model; closure of the single-endpoint model for arbitrary mode; differential correspondence",
         ref="DESIGN.md §6 C03"),
 )
+
+SPEC["manifest"]["text"] += (" Racing mode (PairArb.v), for the property's second sentence: every label at any moment - deliveries, the user's approval or cancel at "
+    "ANY moment (the moments of the recorded finding included), deferred goroutines, and the expiry of either side's timer at any point relative to all of these, in "
+    "particular while a frame for the expiring side is in flight (one restriction keeps the channels finite: a timer expires only when the peer has taken what the expiring "
+    "side wrote before and at most one frame is in flight towards it). Third certified closure for all 288 configurations (50,082 states, largest table 588): safety in every "
+    "reachable state, every state in which nothing more can happen is an agreement (both complete on an open connection or both ended, closed, no timer armed) "
+    "(C03_racing_agreement_partial), and from EVERY reachable state such a state can still be reached - a kernel-checked distance certificate "
+    "(C03_racing_agreement_stays_reachable_partial). A quarter of the random pair runs are scheduled in this mode; after a racing expiry the monitor demands agreement, not success.")
+SPEC["assumptions"] += ["racing mode as defined in PairArb.arb_next (expiry_held)"]
